@@ -173,6 +173,14 @@ def judge(case, acc, ctx):
         reject_reasons = []
         seen_roles = set()
         for i, e in enumerate(case["envs"]):
+            if e.get("repeat_of") is not None and items:
+                # the very same input file named once more (same path, or another spelling of it): its role is taken already
+                j = e["repeat_of"] % len(items)
+                files.append(files[j] if e["repeat_of"] % 2 else os.path.join(os.path.dirname(files[j]), ".", os.path.basename(files[j])))
+                if items[j]["role"] is not None:
+                    reject_reasons.append("duplicate role")
+                    reject_reasons.append("same file twice")
+                continue
             desc = with_compid(e["desc"], e["vendor"], e["cls"], e.get("pos", 0), missing=e.get("missing", False))
             if e.get("fit") in ("exact", "over1") and not e.get("missing"):
                 role0 = tab.get(class_uuid(e["vendor"], e["cls"]))
@@ -383,7 +391,9 @@ def case_s(max_set=4):
             desc = draw(G.envelope_s(depth=0, small=True, seq_depth=1, max_auth=1, with_text=draw(st.booleans()), cwt=False))
             envs.append({"desc": desc, "vendor": v, "cls": c, "pos": draw(st.integers(0, 12)), "sign": draw(st.integers(0, 5)) == 0,
                          "fit": draw(st.sampled_from([None, None, None, None, "exact", "over1"]))})
-        neg = draw(st.sampled_from([None, None, None, "unknown", "duplicate", "duplicate-alias", "missing", "dup-config"]))
+        neg = draw(st.sampled_from([None, None, None, "unknown", "duplicate", "duplicate-alias", "missing", "dup-config", "same-file-twice"]))
+        if envs and neg == "same-file-twice":
+            envs.insert(draw(st.integers(1, len(envs))), {"repeat_of": draw(st.integers(0, 20)), "desc": {}, "vendor": "", "cls": ""})
         if envs and neg == "unknown":
             e = draw(G.envelope_s(depth=0, small=True, seq_depth=1, max_auth=0, with_text=False))
             envs.insert(draw(st.integers(0, len(envs))), {"desc": e, "vendor": "unknown.example", "cls": "nobody", "pos": 1})
@@ -511,7 +521,7 @@ def finalize(ctx, m, ev):
     c = m["counters"]
     ev["coverage"]["exhaustive_scope"] = "role subsets: " + ("all 2047 per SoC" if m["info"].get("role_subsets_exhaustive") else "every 8th subset per SoC in the quick tier (all in thorough)") + "; envelope contents sampled"
     ev["coverage"]["excluded_known"] = {"F4": c.get("excluded_known:F4", 0)}
-    need = ["soc:nrf9280", "route:cli", "route:main", "signed", "severed-input", "config", "negative:unknown class", "negative:duplicate role",
+    need = ["soc:nrf9280", "route:cli", "route:main", "signed", "severed-input", "config", "negative:unknown class", "negative:duplicate role", "negative:same file twice",
             "negative:missing component id", "negative:larger than its slot", "fit:exact", "fit:over1", "set:11"]
     for n in need:
         if not c.get(n):
